@@ -45,7 +45,78 @@ def md4_block(words):
     return [a + U(IV[0]), b + U(IV[1]), c + U(IV[2]), d + U(IV[3])]
 
 
+IV_SHA1 = [0x67452301, 0xefcdab89, 0x98badcfe, 0x10325476, 0xc3d2e1f0]
+IV_SHA256 = [0x6a09e667, 0xbb67ae85, 0x3c6ef372, 0xa54ff53a, 0x510e527f, 0x9b05688c, 0x1f83d9ab, 0x5be0cd19]
+K256 = [0x428a2f98, 0x71374491, 0xb5c0fbcf, 0xe9b5dba5, 0x3956c25b, 0x59f111f1, 0x923f82a4, 0xab1c5ed5, 0xd807aa98, 0x12835b01, 0x243185be, 0x550c7dc3, 0x72be5d74, 0x80deb1fe, 0x9bdc06a7, 0xc19bf174,
+        0xe49b69c1, 0xefbe4786, 0x0fc19dc6, 0x240ca1cc, 0x2de92c6f, 0x4a7484aa, 0x5cb0a9dc, 0x76f988da, 0x983e5152, 0xa831c66d, 0xb00327c8, 0xbf597fc7, 0xc6e00bf3, 0xd5a79147, 0x06ca6351, 0x14292967,
+        0x27b70a85, 0x2e1b2138, 0x4d2c6dfc, 0x53380d13, 0x650a7354, 0x766a0abb, 0x81c2c92e, 0x92722c85, 0xa2bfe8a1, 0xa81a664b, 0xc24b8b70, 0xc76c51a3, 0xd192e819, 0xd6990624, 0xf40e3585, 0x106aa070,
+        0x19a4c116, 0x1e376c08, 0x2748774c, 0x34b0bcb5, 0x391c0cb3, 0x4ed8aa4a, 0x5b9cca4f, 0x682e6ff3, 0x748f82ee, 0x78a5636f, 0x84c87814, 0x8cc70208, 0x90befffa, 0xa4506ceb, 0xbef9a3f7, 0xc67178f2]
+
+
+def ror(x, n):
+    return (x >> U(n)) | (x << U(32 - n))
+
+
+def sha1_block(w16):
+    w = list(w16)
+    for t in range(16, 80):
+        w.append(rol(w[t - 3] ^ w[t - 8] ^ w[t - 14] ^ w[t - 16], 1))
+    a, b, c, d, e = [np.full(w[0].shape, v, dtype=U) for v in IV_SHA1]
+    for t in range(80):
+        if t < 20:
+            f = (b & c) | (~b & d); k = 0x5a827999
+        elif t < 40:
+            f = b ^ c ^ d; k = 0x6ed9eba1
+        elif t < 60:
+            f = (b & c) | (b & d) | (c & d); k = 0x8f1bbcdc
+        else:
+            f = b ^ c ^ d; k = 0xca62c1d6
+        tmp = rol(a, 5) + f + e + U(k) + w[t]
+        e, d, c, b, a = d, c, rol(b, 30), a, tmp
+    return [x + U(v) for x, v in zip((a, b, c, d, e), IV_SHA1)]
+
+
+def sha256_block(w16):
+    w = list(w16)
+    for t in range(16, 64):
+        s0 = ror(w[t - 15], 7) ^ ror(w[t - 15], 18) ^ (w[t - 15] >> U(3))
+        s1 = ror(w[t - 2], 17) ^ ror(w[t - 2], 19) ^ (w[t - 2] >> U(10))
+        w.append(w[t - 16] + s0 + w[t - 7] + s1)
+    a, b, c, d, e, f, g, h = [np.full(w[0].shape, v, dtype=U) for v in IV_SHA256]
+    for t in range(64):
+        S1 = ror(e, 6) ^ ror(e, 11) ^ ror(e, 25)
+        ch = (e & f) ^ (~e & g)
+        t1 = h + S1 + ch + U(K256[t]) + w[t]
+        S0 = ror(a, 2) ^ ror(a, 13) ^ ror(a, 22)
+        mj = (a & b) ^ (a & c) ^ (b & c)
+        t2 = S0 + mj
+        h, g, f, e, d, c, b, a = g, f, e, d + t1, c, b, a, t1 + t2
+    return [x + U(v) for x, v in zip((a, b, c, d, e, f, g, h), IV_SHA256)]
+
+
+def search_be(alg, start, chunks, chunk=1 << 20):
+    """SHA-1 / SHA-256: 8-byte message = big-endian counter, big-endian words, length field 64"""
+    f, iv = (sha1_block, IV_SHA1) if alg == 'sha1' else (sha256_block, IV_SHA256)
+    hits = []
+    for ci in range(chunks):
+        n0 = start + ci * chunk
+        cnt = np.arange(n0, n0 + chunk, dtype=np.uint64)
+        z = np.zeros(chunk, dtype=U)
+        words = [(cnt >> np.uint64(32)).astype(U), (cnt & np.uint64(0xffffffff)).astype(U), np.full(chunk, 0x80000000, dtype=U)] + [z] * 12 + [np.full(chunk, 64, dtype=U)]
+        new = f(words)
+        for i in range(len(iv)):
+            for j in range(len(iv)):
+                if i != j:
+                    for idx in np.nonzero(new[i] == U(iv[j]))[0]:
+                        hits.append({'alg': alg, 'message': int(n0 + idx).to_bytes(8, 'big').hex(), 'new_word': i, 'equals_old_word': j})
+        if ci % 16 == 0:
+            print(alg, 'searched', n0 + chunk, 'hits', len(hits), flush=True)
+    return hits
+
+
 def search(alg, start, chunks, chunk=1 << 20):
+    if alg in ('sha1', 'sha256'):
+        return search_be(alg, start, chunks, chunk)
     f = md5_block if alg == 'md5' else md4_block
     hits = []
     for ci in range(chunks):
@@ -66,7 +137,7 @@ def search(alg, start, chunks, chunk=1 << 20):
 
 if __name__ == '__main__':
     alg, part, nparts = sys.argv[1], int(sys.argv[2]), int(sys.argv[3])
-    total = 1 << 11      # chunks of 2^20 -> 2^31 messages over all parts
+    total = (1 << 11) if alg in ('md5', 'md4') else (1 << 10)     # chunks of 2^20 -> 2^31 (2^30) messages over all parts
     per = total // nparts
     h = search(alg, part * per << 20, per)
     json.dump(h, open('/var/tmp/work/cc_%s_%d.json' % (alg, part), 'w'))
